@@ -29,6 +29,11 @@ var Codes = map[string]CodeSem{
 		}
 		return true, B{"?w": v}
 	},
+	// returned objects whose values are numbers, arrays and maps (merged into the binding, the returned value wins)
+	"({x:1})":           func(B) (bool, B) { return true, B{"?x": 1.0} },
+	"({y:[-1]})":        func(B) (bool, B) { return true, B{"?y": []interface{}{-1.0}} },
+	"({x:['s1','x']})":  func(B) (bool, B) { return true, B{"?x": []interface{}{"s1", "x"}} },
+	"({y:{k:1,m:[2]}})": func(B) (bool, B) { return true, B{"?y": map[string]interface{}{"k": 1.0, "m": []interface{}{2.0}}} },
 	"(typeof x == 'string' && typeof y == 'string') ? (x < y) : false": func(th B) (bool, B) {
 		x, ok1 := th["?x"].(string)
 		y, ok2 := th["?y"].(string)
